@@ -384,6 +384,10 @@ func (c *converter) ForEnd() error {
 }
 
 func (c *converter) Break() error {
+	// A break that no loop encloses (e.g. directly in a switch case) has no label to jump to.
+	if len(c.endLabels) == 0 {
+		return fmt.Errorf("break is only supported within a for-loop")
+	}
 	c.addLine(fmt.Sprintf("goto %s", c.mustCurrentEndLabel()))
 	return nil
 }
